@@ -685,13 +685,25 @@ def vmf_cases(rng, out, n, extreme=False):
 
 def birth_cases(rng, out, n):
     terms, metas = [], []
+
+    def messy(d, extra):
+        """the dictionaries handed to a constructor need not list the parameters in the proposal's order, and one dictionary may be
+        shared by the births of several components (it then names more parameters than this birth has)"""
+        keys = list(d)
+        if rng.random() < 0.5:
+            keys.reverse()
+        out_ = {k: d[k] for k in keys}
+        if rng.random() < 0.5:
+            out_ = dict([('zz', extra)] + list(out_.items())) if rng.random() < 0.5 else dict(list(out_.items()) + [('zz', extra)])
+            out.count('birth_shared_dictionary')
+        return out_
     for _ in range(n):
         npar = rng.choice([1, 2])
         params = ['a', 'b'][:npar]
         kind = rng.choice(['uniform', 'normal', 'lognormal'])
         if kind == 'uniform':
             bnd = {p: rng.choice([(0.0, 4.0), (-2.0, 0.5), (1e3, 1e3 + 1)]) for p in params}
-            b = P.UniformBirth(params, bnd)
+            b = P.UniformBirth(params, messy(bnd, (-7.0, 9.0)))
             for _ in range(3):
                 x = {p: rng.choice([bnd[p][0], bnd[p][1], rng.uniform(*bnd[p]), bnd[p][1] + 1.0, bnd[p][0] - 1e-9]) for p in params}
                 val = float(b.logpdf(dict(x)))
@@ -705,7 +717,7 @@ def birth_cases(rng, out, n):
         elif kind == 'normal':
             mu = {p: rng.uniform(-2, 2) for p in params}
             sd = {p: rng.choice([0.1, 1.0, 7.0]) for p in params}
-            b = P.NormalBirth(params, mu, sd)
+            b = P.NormalBirth(params, messy(mu, 11.0), messy(sd, 0.013))
             for _ in range(3):
                 x = {p: mu[p] + rng.gauss(0, 2) * sd[p] for p in params}
                 val = float(b.logpdf(dict(x)))
@@ -715,7 +727,7 @@ def birth_cases(rng, out, n):
         else:
             mu = {p: rng.choice([0.3, 1.0, 5.0]) for p in params}
             sd = {p: rng.choice([0.2, 0.7, 2.0]) for p in params}
-            b = P.LogNormalBirth(params, mu, sd)
+            b = P.LogNormalBirth(params, messy(mu, 11.0), messy(sd, 0.013))
             for _ in range(3):
                 x = {p: rng.choice([rng.lognormvariate(0, 1), 0.0, -1.0, 1e-8, 50.0]) for p in params}
                 with numpy.errstate(all='ignore'):
